@@ -12,3 +12,6 @@ add("C08", "model-based property testing: generated programs vs an independent r
 add("C09", "model-based property testing: generated programs vs an independent reference interpreter (rapid)",
     "Generated programs nesting try/catch/finally, throw, runtime errors and functions with deferred calls (host probes, script functions, closure literals that raise or nest try/defer) are run by anko and by the reference interpreter; trace (order and multiplicity of every probe, incl. deferred ones), result, error presence and thrown-error text must agree.",
     MODEL_NOTE)
+add("C07", "model-based property testing: probe traces of generated expressions vs an independent reference interpreter (rapid)",
+    "Typed expression trees whose leaves are side-effecting probes with unique ids are placed in every call form (script functions on the direct and reflect paths, variadic, Go functions fixed/variadic/typed, plain/spread/wrong-arity/anonymous/go/defer), literal, operator, index/slice, return-list and multi-assignment position; anko's probe trace must equal the reference interpreter's (source order, each exactly once, truncated after a raising or unconvertible operand, short-circuit operands skipped), and the values must land in the right slots. op= / ++ on index targets and assignment target-vs-RHS order are compared as multisets.",
+    MODEL_NOTE)
